@@ -56,7 +56,7 @@ def run_cli(mod, args, cwd, shimdir, hashseed, scanorder):
     env = dict(os.environ, PYTHONPATH=shimdir + os.pathsep + core.repo_path(), PYTHONHASHSEED=str(hashseed),
                CBI_VERIF_SCANORDER=json.dumps(scanorder))
     env.pop("CBI_VERIF", None)
-    r = subprocess.run([sys.executable, "-m", mod] + args, cwd=cwd, env=env, capture_output=True, text=True, timeout=180)
+    r = core.run_impl([sys.executable, "-m", mod] + args, 180, cwd=cwd, env=env, capture_output=True, text=True)
     return r.returncode, r.stdout, r.stderr
 
 
@@ -83,6 +83,7 @@ def scen_chunk(args):
     open(os.path.join(shimdir, "sitecustomize.py"), "w").write(SHIM)
     try:
         for si, (sc, scheds) in enumerate(pairs):
+            core.tick(sc, 900)
             tags = scen.features(sc) | {"c14"}
             if not scen.well_formed(sc) or any(r["warns"] for r in sc["res"]) or "argv.forced_name_beside_main" in tags:
                 stats["skipped"] += 1
@@ -170,6 +171,7 @@ def dup_chunk(args):
     open(os.path.join(shimdir, "sitecustomize.py"), "w").write(SHIM)
     try:
         for ci, case in enumerate(cases):
+            core.tick(case, 900)
             d = tempfile.mkdtemp(prefix="c14d-", dir=workdir)
             try:
                 root = os.path.join(d, "root")
